@@ -1,6 +1,7 @@
 package ysgo
 
 import (
+	"github.com/remieven/ysgo/internal/tree"
 	"github.com/remieven/ysgo/variable"
 )
 
@@ -97,4 +98,49 @@ func VHWait() {
 	panicked := vTry(func() { e2 = <-cs.call("wait", vArbArgs("bad", vChoose("badn", 3))) })
 	vAssert(!panicked, "wait never panics")
 	_ = e2
+}
+
+// VHCommandTwice (C17/C10): the same command statement executed twice (as when its node is entered
+// again) with a variable changed in between: the handler receives the arguments as they evaluate
+// *each time*, literals, variables and unary expressions alike.
+func VHCommandTwice() {
+	st := variable.NewInMemoryStorer()
+	x1, x2 := vFloat("x1"), vFloat("x2")
+	st.SetNumberValue("x", x1)
+	var calls [][]*variable.Value
+	neg := &tree.Expression{NegativeExpression: vVarExpr("x")}
+	// with or without a bare variable among the arguments (a statement-level shortcut may depend on it)
+	third := vVarExpr("x")
+	withBareVariable := vChoose("bare.variable", 2) == 1
+	if !withBareVariable {
+		third = &tree.Expression{NegativeExpression: &tree.Expression{NegativeExpression: vVarExpr("x")}}
+	}
+	stmt := &tree.Statement{CommandStatement: &tree.CommandStatement{Elements: []*tree.CommandStatementElement{
+		{Expression: vValExpr(variable.NewString("move"))}, {Expression: vValExpr(variable.NewNumber(7))},
+		{Expression: third}, {Expression: neg}, {Expression: &tree.Expression{NegativeExpression: vValExpr(variable.NewNumber(3))}},
+	}}}
+	line := &tree.Statement{LineStatement: &tree.LineStatement{Text: &tree.LineFormattedText{Elements: []*tree.LineFormattedTextElement{{Text: "L"}}}}}
+	dr := vRunnerOver(st, stmt, line, stmt, line)
+	dr.AddCommand("move", func(args []*variable.Value) <-chan error {
+		calls = append(calls, args)
+		ch := make(chan error, 1)
+		ch <- nil
+		return ch
+	})
+	el, err := dr.Next(0)
+	vAssert(err == nil && el != nil && len(calls) == 1, "first execution")
+	st.SetNumberValue("x", x2) // the host (or the script) changes the variable between the two executions
+	el, err = dr.Next(0)
+	vAssert(err == nil && el != nil && len(calls) == 2, "second execution")
+	if len(calls) != 2 {
+		return
+	}
+	for i, x := range []float64{x1, x2} {
+		a := calls[i]
+		vAssert(len(a) == 4 && vKind(a[0]) == 0 && *a[0].Number == 7, "literal argument, every time")
+		vAssert(vKind(a[1]) == 0 && vSameFloat(*a[1].Number, x), "a variable argument is evaluated at each execution")
+		vAssert(vKind(a[2]) == 0 && vSameFloat(*a[2].Number, -x), "a unary expression over a variable is evaluated at each execution")
+		vAssert(vKind(a[3]) == 0 && *a[3].Number == -3, "a negated literal stays what it is")
+	}
+	vReach("twice")
 }
